@@ -124,7 +124,7 @@ func errClass(err error) string {
 
 // runSource: parse src as template "main" on a fresh engine, render it with every context, then the
 // canary. ctxs may be nil (parse only).
-func runSource(fam, src string, ctxs []map[string]interface{}, nontrivial bool, detail func() interface{}) *vlib.Outcome {
+func runSource(fam, src string, ctxs []map[string]interface{}, nontrivial bool, detail func() interface{}, renderKF func(pan string) string) *vlib.Outcome {
 	if slowLog != "" { // development aid only; never part of the verdict
 		t0 := time.Now()
 		defer func() {
@@ -143,6 +143,7 @@ func runSource(fam, src string, ctxs []map[string]interface{}, nontrivial bool, 
 		o.Violation = fmt.Sprintf("parsing %s panicked: %s", showSrc(src), p)
 		o.Detail = det(detail)
 		o.Class = fam + ":PANIC-parse"
+		o.Known = knownParsePanic(src, p)
 		return o
 	}
 	o.Counters["parses"] = 1
@@ -157,6 +158,9 @@ func runSource(fam, src string, ctxs []map[string]interface{}, nontrivial bool, 
 				o.Violation = fmt.Sprintf("rendering %s with context #%d panicked: %s", showSrc(src), i, p)
 				o.Detail = det(detail)
 				o.Class = fam + ":PANIC-render"
+				if renderKF != nil {
+					o.Known = renderKF(p)
+				}
 				return o
 			}
 			o.Counters["renders"]++
@@ -183,12 +187,21 @@ var violLog = os.Getenv("C05_VIOLLOG")
 
 // tcase = t.Case, plus (development aid) a log of every violating case
 func tcase(t *vlib.T, key string, fn func() *vlib.Outcome) {
-	if violLog == "" {
-		t.Case(key, fn)
-		return
-	}
 	t.Case(key, func() *vlib.Outcome {
 		o := fn()
+		if o != nil {
+			if o.Counters == nil {
+				o.Counters = map[string]int64{}
+			}
+			fam := key
+			if i := strings.IndexAny(key, "|-+"); i > 0 {
+				fam = key[:i]
+			}
+			o.Counters["cases_"+fam]++
+		}
+		if violLog == "" {
+			return o
+		}
 		if o != nil && o.Violation != "" {
 			if f, err := os.OpenFile(violLog, os.O_APPEND|os.O_CREATE|os.O_WRONLY, 0o644); err == nil {
 				v := strings.Split(o.Violation, "\n")
